@@ -1,5 +1,5 @@
 """Engines: one function per family of properties; all verdicts come from TLC."""
-import json, os, random, shutil, sys, time, collections, glob
+import json, os, random, shutil, sys, time, collections, glob, zlib
 from common import *
 import seqplan
 
@@ -127,6 +127,15 @@ SEQ_RELEVANT = {
 }
 
 
+CONC_FOCUS = {
+    "C01": {("AddVersion", "AddVersion")},
+    "C02": {("AddVersion", "AddVersion")},
+    "C07": {("AddVersion", "AddVersion")},
+    "C08": {("AddVersion", "GetChildVersion")},
+    "C11": {("AddSnapshot", "GetSnapshot"), ("AddSnapshot", "AddVersion"), ("AddVersion", "GetSnapshot"), ("AddSnapshot", "AddSnapshot")},
+}
+
+
 def engine_seq(pid, tier, evidence=True):
     t0 = time.time()
     rng = random.Random(seed() * 7919 + 13)
@@ -214,6 +223,11 @@ def engine_seq(pid, tier, evidence=True):
     if not evidence:
         shutil.rmtree(wd, ignore_errors=True)
         return dict(found=found, notes=notes, coverage={k: coverage[k] for k in ("states", "transitions", "tours", "histories", "events_judged", "events_relevant_to_property")})
+    # schedule facet: the same property on overlapping requests under the controlled scheduler
+    if pid in CONC_FOCUS:
+        cr = engine_conc(pid, tier, evidence=False, focus=CONC_FOCUS[pid])
+        found += cr["found"]
+        coverage["schedule_facet"] = dict(rounds_judged=cr["rounds"], request_pairs=sorted("/".join(p) for p in CONC_FOCUS[pid]), model_runs=cr["model_runs"])
     rc = report(pid, tier, "model_checking", found, coverage, assumptions, t0, notes)
     shutil.rmtree(wd, ignore_errors=True)
     return rc
@@ -718,8 +732,9 @@ def run_conc_jobs(binary, jobs, wd, nproc=None):
     return [t[1] for t in todo], tot, perjob
 
 
-def conc_collect(pid, viols, extra_sig=None):
+def conc_collect(pid, viols, extra_sig=None, jobs=None):
     found = []
+    jobs_by_id = {j["id"]: j for j in (jobs or [])}
     for v in viols:
         if pid not in v["names"]:
             continue
@@ -731,11 +746,12 @@ def conc_collect(pid, viols, extra_sig=None):
                 f"{[(q['op'], q['arg'], q['lvl']) for q in e['reqs']]} on seed latest={e['seed']['l']} exists={e['seed']['e']} -> responses "
                 f"{[(r['kind'], r['vid'], r.get('msg', '')[:60]) for r in e['resps']]}; final latest={e['final']['l']} versions={[(x['vid'], x['parent']) for x in e['final']['v']]}; "
                 f"schedule {e['info']}")
-        found.append(dict(sig=sig, what=what[:1800], replay=dict(engine="conc", predicate=pid, round=e)))
+        found.append(dict(sig=sig, what=what[:1800], replay=dict(engine="conc", predicate=pid, round=e, job=jobs_by_id.get(e.get("job")))))
     return found
 
 
-def engine_conc(pid, tier, evidence=True, only_av=False):
+def engine_conc(pid, tier, evidence=True, focus=None):
+    only_av = focus is not None
     t0 = time.time()
     rng = random.Random(seed() * 2654435761 % (2**31) + 11)
     binary = build_harness()
@@ -766,8 +782,8 @@ def engine_conc(pid, tier, evidence=True, only_av=False):
     # ---- (2) bounded-exhaustive exploration at gate granularity, not derived from the model
     shapes = CONC_SHAPES_HTTP
     pairs = [(a, b) for i, a in enumerate(shapes) for b in shapes[i:]]
-    if only_av:
-        pairs = [(a, b) for a, b in pairs if a[0] == "AddVersion" and b[0] == "AddVersion"]
+    if focus is not None:
+        pairs = [(a, b) for a, b in pairs if tuple(sorted((a[0], b[0]))) in focus]
     seeds = ["Seed0", "Seed2", "Seed3"] if tier == "quick" else ["Seed0", "Seed1", "Seed2", "Seed3", "Seed4", "Seed6"]
     targets = [("inmemory", "shared"), ("sqlite", "shared"), ("sqlite", "multi")]
     maxr = 60 if tier == "quick" else 400
@@ -775,7 +791,7 @@ def engine_conc(pid, tier, evidence=True, only_av=False):
     for a, b in pairs:
         for sd in seeds:
             for backend, inst in targets:
-                if tier == "quick" and not only_av and (k % 3) != (hash((a, b, sd)) % 3) and not (a[0] == "AddVersion" and b[0] == "AddVersion"):
+                if tier == "quick" and not only_av and (k % 3) != (zlib.crc32(repr((a, b, sd)).encode()) % 3) and not (a[0] == "AddVersion" and b[0] == "AddVersion"):
                     k += 1
                     continue            # quick: each (pair, seed) on one of the three storage configurations; AddVersion pairs on all
                 k += 1
@@ -797,7 +813,7 @@ def engine_conc(pid, tier, evidence=True, only_av=False):
     viols, total = judge(files, spec="TraceConc.tla")
     t3 = time.time()
     log(f"[conc] tlc {t1-t0:.1f}s harness {t2-t1:.1f}s judge {t3-t2:.1f}s rounds {total}")
-    found = conc_collect(pid, viols)
+    found = conc_collect(pid, viols, jobs=jobs)
     if not evidence:
         shutil.rmtree(wd, ignore_errors=True)
         return dict(found=found, rounds=total, model_runs=model_runs)
